@@ -4,7 +4,7 @@ import connlib
 
 def nontrivial(c, tr):
     kinds = [op.split()[0] for op in c.ops]
-    if not any(k in ("SHUT", "XSHUT", "FC", "FCD", "DFIRE") for k in kinds):
+    if not any(k in ("SHUT", "XSHUT", "FC", "FCD", "DFIRE", "XRC") for k in kinds):
         return None
     fin = any(o.fin for o in tr.obs)
     down = any("Down" in o.ev for o in tr.obs)
@@ -15,6 +15,7 @@ def nontrivial(c, tr):
 def run(chk, replay=None):
     return connlib.run_property(
         chk, "C03", connlib.oracle_c03, ["close", "close", "mixed"], 1500, 60000, replay=replay,
-        nontrivial=nontrivial,
-        rule="corpus (incl. the F-6 witnesses) + random sequences mixing sends (loop/foreign) with shutdown()/forceClose()/forceCloseWithDelay()/peer close in all orders, "
-             "backlogs from empty to MBs at the moment of shutdown; non-trivial = contains a shutdown or forced close; distinct by (op kinds, FIN seen, DOWN seen, backlog at shutdown)")
+        nontrivial=nontrivial, races=True,
+        rule="corpus (incl. the F-6 and F-19 witnesses) + random sequences mixing sends (loop/foreign) with shutdown()/forceClose()/forceCloseWithDelay()/peer close in all orders, "
+             "backlogs from empty to MBs at the moment of shutdown; shutdown()/forceClose() also issued on real foreign threads cut at their load / store / hand-off "
+             "(XRC/XRS/XRE), at low frequency with a loop-thread close between load and store (F-19); non-trivial = contains a shutdown or forced close; distinct by (op kinds, FIN seen, DOWN seen, backlog at shutdown)")
